@@ -650,6 +650,78 @@ def check_reconnect(ctx, kind):
     return None
 
 
+def check_reset(ctx, kind):
+    """The peer aborts the connection (TCP RST).  Whatever the reads report, close() must complete without raising, a second close()
+    too, and connect() must then give a working transport (C18: close is idempotent and a closed transport can connect again;
+    C12: any transport failure leaves the object recoverable)."""
+    import struct as _struct
+    Timeout = exc_cls()
+
+    def handler(conn, k):
+        if k == 0:
+            conn.sendall(b"hello")
+            time.sleep(0.05)
+            conn.setsockopt(socket.SOL_SOCKET, socket.SO_LINGER, _struct.pack("ii", 1, 0))   # close() now sends RST
+        else:
+            d = conn.recv(100)
+            conn.sendall(d)
+
+    peer = Peer(handler, nconn=2)
+    io = make_io(kind, peer.port)
+    problems = []
+
+    async def host():
+        await io.connect(1.0)
+        got = await io.read(5, 1.0)
+        if got != b"hello":
+            problems.append(problem("stream-differs", "read %r before the reset" % (got,)))
+        await io.sleep(0.15)
+        try:
+            await io.write(b"x" * 10, 0.5)          # provoke / observe the reset
+            await io.sleep(0.05)
+            await io.read(10, 0.2)
+        except Timeout:
+            pass
+        except OSError:
+            pass
+        for attempt in (1, 2):
+            try:
+                await io.close()
+            except Exception as exc:  # noqa
+                problems.append(problem("close-raises", "close() #%d after a connection reset raised %s: %s" % (attempt, type(exc).__name__, exc)))
+        if io.connected():
+            problems.append(problem("close", "the transport still holds a connection after close() following a reset"))
+        try:
+            await io.connect(1.0)
+            await io.write(b"ping", 1.0)
+            back = await io.read(4, 1.0)
+            if back != b"ping":
+                problems.append(problem("reconnect", "after the reset, reconnect round trip returned %r" % (back,)))
+            await io.close()
+        except Exception as exc:  # noqa
+            problems.append(problem("reconnect", "connect() after a reset + close() raised %s: %s" % (type(exc).__name__, exc)))
+
+    try:
+        drive(kind, host())
+    except Exception as exc:  # noqa
+        problems.append(problem("exception", "reset scenario raised %s: %s" % (type(exc).__name__, exc)))
+    # make sure the peer's second accept ends
+    try:
+        s2 = socket.create_connection(("127.0.0.1", peer.port), timeout=0.5)
+        s2.close()
+    except OSError:
+        pass
+    peer.finish(timeout=5.0)
+    rep = ctx.report
+    rep.evaluations += 1
+    rep.count("reset_test", kind)
+    if not problems:
+        rep.signatures.add(("reset", kind))
+    if problems:
+        return dict(case=dict(test="reset", transport=kind), why=summarize(problems), kinds=[p["kind"] for p in problems], signature=SIG)
+    return None
+
+
 # ---------------------------------------------------------------------------------------------------------------------
 # (3) bulk_write against a slow reader with small socket buffers
 # ---------------------------------------------------------------------------------------------------------------------
@@ -1050,6 +1122,7 @@ def run(ctx):
         for timeout in TIMEOUTS:
             note(check_idle(ctx, kind, timeout))
         note(check_reconnect(ctx, kind))
+        note(check_reset(ctx, kind))
         note(check_write(ctx, kind, 1 << 20 if quick else 5 << 20))
     observe_async_write_timeout(ctx)
     nsess = 2 if quick else 6
